@@ -213,6 +213,10 @@ class FileStore(BaseEngine):
         if cfg == 'alt_image':
             plan['tracks'] = []
             plan['alt'] = self._gen_alt(rng)
+        if cfg == 'roundtrip' and rng.random() < 0.25:
+            # another file is saved and loaded in the same process between our save and our load
+            plan['bystander'] = [[gen_event(rng, True, False) for _ in range(rng.randint(1, 6))]
+                                 for _ in range(rng.randint(1, 2))]
         if cfg == 'unstorable':
             kind = weighted(rng, (('rt', 4), ('negative', 2), ('float', 2), ('type0', 2), ('storable_common', 3)))
             plan['bad'] = kind
@@ -439,6 +443,22 @@ class FileStore(BaseEngine):
         except Exception as e:
             raise Violation(f'roundtrip:save-raised:{type(e).__name__}',
                             f'saving storable content raised {type(e).__name__}: {e}')
+        if plan.get('bystander'):
+            other = MidiFile(type=1, ticks_per_beat=96)
+            for tr in plan['bystander']:
+                other.tracks.append(MidiTrack(build(e) for e in tr))
+            omodel = [normalise([m.copy() for m in tr]) for tr in other.tracks]
+            try:
+                oimg = self._save(other, 'file', disk, name='by.mid')
+                oback = self._load(oimg, 'file', disk, name='by2.mid')
+            except Exception as e:
+                raise Violation(f'roundtrip:bystander-raised:{type(e).__name__}',
+                                f'saving/loading a second, unrelated file in between raised {type(e).__name__}: {e}')
+            if len(oback.tracks) != len(omodel) or not all(same_track(list(a), b) for a, b in zip(oback.tracks, omodel)):
+                raise Violation('roundtrip:bystander-differs', f'a second, unrelated file saved and loaded between our save '
+                                                               f'and our load came back as {[list(t) for t in oback.tracks]!r}, '
+                                                               f'expected {omodel!r}')
+            stats['fault:other_file_in_between'] += 1
         try:
             back = self._load(image, plan['via'], disk)
         except Exception as e:
@@ -640,6 +660,10 @@ class FileStore(BaseEngine):
             yield replace_at(plan, ('via',), 'file')
         if plan.get('prelude'):
             yield replace_at(plan, ('prelude',), [])
+        if plan.get('bystander'):
+            c = dict(plan)
+            c.pop('bystander')
+            yield c
         if plan.get('saves', 1) > 1:
             yield replace_at(plan, ('saves',), plan['saves'] - 1)
         if plan['tpb'] != 480:
